@@ -77,4 +77,12 @@ CHECKS = {
         text="Every lattice point is thrown through RegionGeom.throw and judged against explicit vectors: path-length range and inverse-CDF residual, spot on the sphere at that distance, lat/long ranges, emergence angle from d.n, kept <=> upward and below 42 deg (either-side band at the cuts), non-finite rows never kept, and the ground offset of positions along the trajectory.",
         note="spherical Earth R=6378.1 km; conditioning-aware tolerances (eps*R/sin(theta_S)) for quantities reconstructed from reported lat/long; nothing is claimed between lattice points",
     ),
+    "C01": dict(
+        engine="E1-lattice",
+        level="exploration",
+        design_ref="DESIGN.md §3 C01, Appendix B",
+        technique="bounded exhaustive enumeration: configuration lattice (altitude x limb angle x cone x azimuth) x interior mid-point lattices of [0,1]^4; pointwise change-of-variables identity with a finite-difference Jacobian of the production outputs, per-coordinate monotone/independent/onto checks, and the real mcintegral on equal-weight lattices (up to 64x128x2x4096 points) against an independent aperture integral",
+        text="At every lattice point weight*mcnorm is compared with integrand*|Jacobian| (1e-5), the image of the cube is shown to be the region coordinate by coordinate, and equal-weight quadrature of the real estimator is compared with an independently computed aperture with an a-posteriori error bound.",
+        note="interior lattices only (faces are C02's); convergence decided at finite resolution; quadrature clause limited to cones <= 60 deg",
+    ),
 }
